@@ -112,7 +112,7 @@ func (s *streamHTTP) SendMsg(m interface{}) error {
 
 	cur := reply.ProtoReflect()
 	for _, fd := range s.method.resp {
-		cur = cur.Mutable(fd).Message()
+		cur = cur.Mutable(fieldOf(cur, fd)).Message()
 	}
 	msg := cur.Interface()
 
@@ -214,7 +214,7 @@ func (s *streamHTTP) decodeRequestArgs(args proto.Message) (int, error) {
 
 	cur := args.ProtoReflect()
 	for _, fd := range s.method.body {
-		cur = cur.Mutable(fd).Message()
+		cur = cur.Mutable(fieldOf(cur, fd)).Message()
 	}
 	msg := cur.Interface()
 
@@ -648,7 +648,7 @@ func AsHTTPBodyReader(stream grpc.ServerStream, msg proto.Message) (body io.Read
 		return nil, fmt.Errorf("expected %s got %s", want, name)
 	}
 	for _, fd := range s.method.body {
-		cur = cur.Mutable(fd).Message()
+		cur = cur.Mutable(fieldOf(cur, fd)).Message()
 	}
 
 	if typ := cur.Descriptor().FullName(); typ != "google.api.HttpBody" {
@@ -688,7 +688,7 @@ func AsHTTPBodyWriter(stream grpc.ServerStream, msg proto.Message) (body io.Writ
 		return nil, fmt.Errorf("expected %s got %s", want, name)
 	}
 	for _, fd := range s.method.resp {
-		cur = cur.Mutable(fd).Message()
+		cur = cur.Mutable(fieldOf(cur, fd)).Message()
 	}
 
 	if typ := cur.Descriptor().FullName(); typ != "google.api.HttpBody" {
